@@ -206,6 +206,7 @@ func registerGoStubs(p *Program) {
 		"net/http.Redirect":                       "HTTPRedirect",
 		"net/http.Error":                          "HTTPError",
 		"net/http.NotFound":                       "HTTPNotFound",
+		"net/http.NotFoundHandler":                "HTTPNotFoundHandler",
 		"(net/http.Header).Set":                   "HeaderSet",
 		"(net/http.Header).Get":                   "HeaderGet",
 		"(net/http.Header).Add":                   "HeaderAdd",
